@@ -39,6 +39,7 @@ type Session struct {
 	Errors    []string
 	Log       io.Writer // optional transcript
 	buf       strings.Builder
+	Dead      bool
 	inScope   bool
 	scopeDefs []int
 	scopeVars []string
@@ -104,6 +105,9 @@ func (s *Session) Close() {
 }
 
 func (s *Session) send(str string) {
+	if s.Dead {
+		return
+	}
 	if s.Log != nil {
 		io.WriteString(s.Log, str)
 	}
@@ -285,10 +289,24 @@ func (s *Session) Assert(t *Term) {
 
 func (s *Session) readUntilDone() []string {
 	var lines []string
+	if s.Dead {
+		return lines
+	}
+	// watchdog: a solver that ignores its own time limit is killed
+	done := make(chan struct{})
+	go func(proc *os.Process) {
+		select {
+		case <-done:
+		case <-time.After(time.Duration(s.TimeoutMs)*time.Millisecond*3/2 + 15*time.Second):
+			_ = proc.Kill()
+		}
+	}(s.cmd.Process)
+	defer close(done)
 	for {
 		line, err := s.out.ReadString('\n')
 		if err != nil {
-			s.Errors = append(s.Errors, "solver stream ended: "+err.Error())
+			s.Errors = append(s.Errors, "solver stream ended (killed by watchdog or crashed): "+err.Error())
+			s.Dead = true
 			return lines
 		}
 		line = strings.TrimRight(line, "\r\n")
@@ -372,6 +390,23 @@ func (s *Session) Values(ts []*Term) ([]*Term, error) {
 	for _, t := range ts {
 		// only variables and already defined terms can be referenced inside a pushed scope safely
 		refs = append(refs, s.ref(&sb, t))
+	}
+	if sb.Len() > 0 {
+		// definitions/declarations issued after the last check-sat are not reliably evaluated in its
+		// model (cvc5 returned stale values): define first, then re-establish the model
+		sb.WriteString("(check-sat)\n(echo \"~~done~~\")\n")
+		s.send(sb.String())
+		sb.Reset()
+		ok := false
+		for _, l := range s.readUntilDone() {
+			if strings.TrimSpace(l) == "sat" {
+				ok = true
+			}
+		}
+		s.Queries++
+		if !ok {
+			return nil, fmt.Errorf("model lost after defining the terms to evaluate")
+		}
 	}
 	fmt.Fprintf(&sb, "(get-value (%s))\n(echo \"~~done~~\")\n", strings.Join(refs, " "))
 	s.send(sb.String())
